@@ -80,6 +80,8 @@ def cases(tier):
                     continue
                 out.append({"model": model, "zone": zone, "start": start, "span": span, "usage": usage,
                             "devs": [list(devs[i]) for i in combo]})
+                if d == 0 and zone == zones[0]:
+                    out.append(dict(out[-1], after=True))
     return out
 
 
@@ -188,6 +190,17 @@ def run_case(case):
         return {"rejected": f"data class raised {type(exc).__name__}: {str(exc)[:60]}"}
     key0 = {"usage": case["usage"]}
     viol = []
+    if case.get("after"):
+        # history: first ANOTHER kind of reporting set (with / without usage) is predicted with every aggregation by the same model and
+        # by a second model object of the class; nothing of that may show in what follows
+        other = build(dict(case, usage=not case["usage"], devs=[]))
+        second = _model(case["model"], case["zone"])
+        import copy as _copy
+
+        for mm in (model, _copy.deepcopy(second)):
+            for a in (None, "monthly", "bimonthly"):
+                mm.predict(other, aggregation=a)
+        key0["history"] = "other_kind_first"
     try:
         daily = model.predict(data, aggregation=None)
     except Exception as exc:
